@@ -87,12 +87,12 @@ def do_run(ids, props=None):
             continue
         meta = json.load(open(os.path.join(d, 'meta.json')))
         plist = props or [meta['property']]
-        wt = scratch('r-' + sid)
+        wt = scratch('r%d-' % os.getpid() + sid)
         out = dict(id=sid, checks={})
         try:
             a = sh(['git', '-C', wt, 'apply', os.path.join(d, 'patch.diff')])
             assert a.returncode == 0, a.stderr
-            env = dict(os.environ, YLD_REPO_SRC=wt + '/src', VF_WORK='/tmp/vf-work-seed', VF_EVIDENCE_DIR='/tmp/vf-evidence-seed')
+            env = dict(os.environ, YLD_REPO_SRC=wt + '/src', VF_WORK='/tmp/vf-work-seed-%d' % os.getpid(), VF_EVIDENCE_DIR='/tmp/vf-evidence-seed-%d' % os.getpid())
             for p in plist:
                 r = sh([os.path.join(VERIF, 'check'), p, '--tier', 'quick'], env=env, cwd=VERIF, timeout=3000)
                 lines = [l for l in r.stdout.split('\n') if l.startswith(('VIOLATION', 'UNDECIDED', 'KNOWN', p + ':', 'CHECKER'))]
@@ -102,7 +102,8 @@ def do_run(ids, props=None):
         finally:
             drop(wt)
         json.dump(out, open(os.path.join(d, 'result.json'), 'w'), indent=1)
-    shutil.rmtree('/tmp/vf-evidence-seed', ignore_errors=True)   # evidence of the mutated trees is not kept
+    shutil.rmtree('/tmp/vf-evidence-seed-%d' % os.getpid(), ignore_errors=True)
+    shutil.rmtree('/tmp/vf-work-seed-%d' % os.getpid(), ignore_errors=True)   # evidence of the mutated trees is not kept
 
 
 def do_harmless(ids, props=None):
@@ -121,7 +122,7 @@ def do_harmless(ids, props=None):
             assert a.returncode == 0, a.stderr
             t = sh([PY, '-m', 'pytest', '-q', '-p', 'no:cacheprovider'], env=dict(os.environ, PYTHONPATH=wt + '/src'), cwd=wt, timeout=600)
             out['tests'] = t.stdout.strip().split('\n')[-1]
-            env = dict(os.environ, YLD_REPO_SRC=wt + '/src', VF_WORK='/tmp/vf-work-seed', VF_EVIDENCE_DIR='/tmp/vf-evidence-seed')
+            env = dict(os.environ, YLD_REPO_SRC=wt + '/src', VF_WORK='/tmp/vf-work-seed-%d' % os.getpid(), VF_EVIDENCE_DIR='/tmp/vf-evidence-seed-%d' % os.getpid())
             for p in allp:
                 r = sh([os.path.join(VERIF, 'check'), p, '--tier', 'quick'], env=env, cwd=VERIF, timeout=3000)
                 lines = [l for l in r.stdout.split('\n') if l.startswith(('VIOLATION', 'UNDECIDED', 'CHECKER'))]
@@ -132,7 +133,8 @@ def do_harmless(ids, props=None):
         finally:
             drop(wt)
         json.dump(out, open(os.path.join(d, 'result.json'), 'w'), indent=1)
-    shutil.rmtree('/tmp/vf-evidence-seed', ignore_errors=True)
+    shutil.rmtree('/tmp/vf-evidence-seed-%d' % os.getpid(), ignore_errors=True)
+    shutil.rmtree('/tmp/vf-work-seed-%d' % os.getpid(), ignore_errors=True)
 
 
 if __name__ == '__main__':
